@@ -49,75 +49,91 @@ structure Ctx where
   name : String
   parent : String
   trailerNext : Bool
+  /-- the previous sibling of the reference is the operator `**` -/
+  dstar : Bool
   req : Int
   template : String
 deriving DecidableEq, Repr
 
 def allCtx : List Ctx := [
-  ⟨"or-first", "or_test", false, 3, "y = X or q"⟩,
-  ⟨"or-later", "or_test", false, 3, "y = q or X"⟩,
-  ⟨"and-first", "and_test", false, 4, "y = X and q"⟩,
-  ⟨"and-later", "and_test", false, 4, "y = q and X"⟩,
-  ⟨"not", "not_test", false, 4, "y = not X"⟩,
-  ⟨"cmp-first", "comparison", false, 6, "y = X < q"⟩,
-  ⟨"cmp-later", "comparison", false, 6, "y = q < X"⟩,
-  ⟨"bor-first", "expr", false, 6, "y = X | q"⟩,
-  ⟨"bor-later", "expr", false, 7, "y = q | X"⟩,
-  ⟨"xor-first", "xor_expr", false, 7, "y = X ^ q"⟩,
-  ⟨"xor-later", "xor_expr", false, 8, "y = q ^ X"⟩,
-  ⟨"band-first", "and_expr", false, 8, "y = X & q"⟩,
-  ⟨"band-later", "and_expr", false, 9, "y = q & X"⟩,
-  ⟨"shift-first", "shift_expr", false, 9, "y = X << q"⟩,
-  ⟨"shift-later", "shift_expr", false, 10, "y = q << X"⟩,
-  ⟨"arith-first", "arith_expr", false, 10, "y = X + q"⟩,
-  ⟨"arith-later", "arith_expr", false, 11, "y = q - X"⟩,
-  ⟨"term-first", "term", false, 11, "y = X * q"⟩,
-  ⟨"term-later", "term", false, 12, "y = q * X"⟩,
-  ⟨"factor", "factor", false, 12, "y = -X"⟩,
-  ⟨"power-base", "power", false, 14, "y = X ** q"⟩,
-  ⟨"power-exp", "power", false, 12, "y = q ** X"⟩,
-  ⟨"subscripted", "atom_expr", false, 14, "y = X[0]"⟩,
-  ⟨"called", "atom_expr", false, 14, "y = X(1)"⟩,
-  ⟨"call-arg", "trailer", false, 0, "y = f(X)"⟩,
-  ⟨"call-arg-then", "trailer", true, 0, "y = f(X).real"⟩,
-  ⟨"index", "trailer", false, -1, "y = s[X]"⟩,
-  ⟨"index-then", "trailer", true, -1, "y = s[X].real"⟩,
-  ⟨"arglist", "arglist", false, 0, "y = f(X, 1)"⟩,
-  ⟨"kwarg", "argument", false, 0, "y = f(k=X)"⟩,
-  ⟨"star-arg", "argument", false, 0, "y = f(*X)"⟩,
-  ⟨"dstar-arg", "argument", false, 0, "y = f(**X)"⟩,
-  ⟨"star-expr", "star_expr", false, 6, "y = [*X]"⟩,
-  ⟨"dict-dstar", "dictorsetmaker", false, 6, "y = {**X}"⟩,
-  ⟨"dict-key", "dictorsetmaker", false, 0, "y = {X: 1}"⟩,
-  ⟨"dict-value", "dictorsetmaker", false, 0, "y = {1: X}"⟩,
-  ⟨"ternary-value", "test", false, 2, "y = X if q else r"⟩,
-  ⟨"ternary-cond", "test", false, 2, "y = q if X else r"⟩,
-  ⟨"ternary-else", "test", false, 0, "y = q if r else X"⟩,
-  ⟨"lambda-body", "lambdef", false, 0, "y = lambda: X"⟩,
-  ⟨"comp-iter", "sync_comp_for", false, 2, "y = [v for v in X]"⟩,
-  ⟨"comp-if", "comp_if", false, 2, "y = [v for v in s if X]"⟩,
-  ⟨"list-elem", "testlist_comp", false, 0, "y = [X, 1]"⟩,
-  ⟨"tuple-elem", "testlist_comp", false, 0, "y = (X, 1)"⟩,
-  ⟨"bare-tuple-elem", "testlist_star_expr", false, 0, "y = X, 1"⟩,
-  ⟨"paren", "atom", false, -1, "y = (X)"⟩,
-  ⟨"list-single", "atom", false, 0, "y = [X]"⟩,
-  ⟨"set-single", "atom", false, 0, "y = {X}"⟩,
-  ⟨"assign", "expr_stmt", false, -1, "y = X"⟩,
-  ⟨"if", "if_stmt", false, 0, "if X: pass"⟩,
-  ⟨"while", "while_stmt", false, 0, "while X: pass"⟩,
-  ⟨"for-iter", "for_stmt", false, -1, "for v in X: pass"⟩,
-  ⟨"slice", "subscript", false, 0, "y = s[X:1]"⟩,
-  ⟨"index-list", "subscriptlist", false, 0, "y = s[X, 1]"⟩,
-  ⟨"default", "param", false, 0, "def g(u=X): pass"⟩,
-  ⟨"assert", "assert_stmt", false, 0, "assert X"⟩,
-  ⟨"with", "with_item", false, 0, "with X as y: pass"⟩,
-  ⟨"return", "return_stmt", false, -1, "def g():\n    return X"⟩]
+  ⟨"or-first", "or_test", false, false, 3, "y = X or q"⟩,
+  ⟨"or-later", "or_test", false, false, 3, "y = q or X"⟩,
+  ⟨"and-first", "and_test", false, false, 4, "y = X and q"⟩,
+  ⟨"and-later", "and_test", false, false, 4, "y = q and X"⟩,
+  ⟨"not", "not_test", false, false, 4, "y = not X"⟩,
+  ⟨"cmp-first", "comparison", false, false, 6, "y = X < q"⟩,
+  ⟨"cmp-later", "comparison", false, false, 6, "y = q < X"⟩,
+  ⟨"bor-first", "expr", false, false, 6, "y = X | q"⟩,
+  ⟨"bor-later", "expr", false, false, 7, "y = q | X"⟩,
+  ⟨"xor-first", "xor_expr", false, false, 7, "y = X ^ q"⟩,
+  ⟨"xor-later", "xor_expr", false, false, 8, "y = q ^ X"⟩,
+  ⟨"band-first", "and_expr", false, false, 8, "y = X & q"⟩,
+  ⟨"band-later", "and_expr", false, false, 9, "y = q & X"⟩,
+  ⟨"shift-first", "shift_expr", false, false, 9, "y = X << q"⟩,
+  ⟨"shift-later", "shift_expr", false, false, 10, "y = q << X"⟩,
+  ⟨"arith-first", "arith_expr", false, false, 10, "y = X + q"⟩,
+  ⟨"arith-later", "arith_expr", false, false, 11, "y = q - X"⟩,
+  ⟨"term-first", "term", false, false, 11, "y = X * q"⟩,
+  ⟨"term-later", "term", false, false, 12, "y = q * X"⟩,
+  ⟨"factor", "factor", false, false, 12, "y = -X"⟩,
+  ⟨"power-base", "power", false, false, 14, "y = X ** q"⟩,
+  ⟨"power-exp", "power", false, false, 12, "y = q ** X"⟩,
+  ⟨"subscripted", "atom_expr", false, false, 14, "y = X[0]"⟩,
+  ⟨"called", "atom_expr", false, false, 14, "y = X(1)"⟩,
+  ⟨"call-arg", "trailer", false, false, 0, "y = f(X)"⟩,
+  ⟨"call-arg-then", "trailer", true, false, 0, "y = f(X).real"⟩,
+  ⟨"index", "trailer", false, false, -1, "y = s[X]"⟩,
+  ⟨"index-then", "trailer", true, false, -1, "y = s[X].real"⟩,
+  ⟨"arglist", "arglist", false, false, 0, "y = f(X, 1)"⟩,
+  ⟨"kwarg", "argument", false, false, 0, "y = f(k=X)"⟩,
+  ⟨"star-arg", "argument", false, false, 0, "y = f(*X)"⟩,
+  ⟨"dstar-arg", "argument", false, false, 0, "y = f(**X)"⟩,
+  ⟨"star-expr", "star_expr", false, false, 6, "y = [*X]"⟩,
+  ⟨"dict-dstar", "dictorsetmaker", false, true, 6, "y = {**X}"⟩,
+  ⟨"dict-key", "dictorsetmaker", false, false, 0, "y = {X: 1}"⟩,
+  ⟨"dict-value", "dictorsetmaker", false, false, 0, "y = {1: X}"⟩,
+  ⟨"ternary-value", "test", false, false, 2, "y = X if q else r"⟩,
+  ⟨"ternary-cond", "test", false, false, 2, "y = q if X else r"⟩,
+  ⟨"ternary-else", "test", false, false, 0, "y = q if r else X"⟩,
+  ⟨"lambda-body", "lambdef", false, false, 0, "y = lambda: X"⟩,
+  ⟨"comp-iter", "sync_comp_for", false, false, 2, "y = [v for v in X]"⟩,
+  ⟨"comp-if", "comp_if", false, false, 2, "y = [v for v in s if X]"⟩,
+  ⟨"list-elem", "testlist_comp", false, false, 0, "y = [X, 1]"⟩,
+  ⟨"tuple-elem", "testlist_comp", false, false, 0, "y = (X, 1)"⟩,
+  ⟨"bare-tuple-elem", "testlist_star_expr", false, false, 0, "y = X, 1"⟩,
+  ⟨"paren", "atom", false, false, -1, "y = (X)"⟩,
+  ⟨"list-single", "atom", false, false, 0, "y = [X]"⟩,
+  ⟨"set-single", "atom", false, false, 0, "y = {X}"⟩,
+  ⟨"assign", "expr_stmt", false, false, -1, "y = X"⟩,
+  ⟨"if", "if_stmt", false, false, 0, "if X: pass"⟩,
+  ⟨"while", "while_stmt", false, false, 0, "while X: pass"⟩,
+  ⟨"for-iter", "for_stmt", false, false, -1, "for v in X: pass"⟩,
+  ⟨"slice", "subscript", false, false, 0, "y = s[X:1]"⟩,
+  ⟨"index-list", "subscriptlist", false, false, 0, "y = s[X, 1]"⟩,
+  ⟨"default", "param", false, false, 0, "def g(u=X): pass"⟩,
+  ⟨"assert", "assert_stmt", false, false, 0, "assert X"⟩,
+  ⟨"with", "with_item", false, false, 0, "with X as y: pass"⟩,
+  ⟨"return", "return_stmt", false, false, -1, "def g():\n    return X"⟩]
 
-/-- the condition in `inline`:
-`rhs.type == 'testlist_star_expr' or tree_name.parent.type in EXPRESSION_PARTS or
- tree_name.parent.type == 'trailer' and tree_name.parent.get_next_sibling() is not None` -/
-def jediParens (parts : List String) (rhsType parentType : String) (trailerNext : Bool) : Bool :=
-  rhsType == "testlist_star_expr" || parts.contains parentType ||
+/-- the parenthesisation rule of `inline` as read from the source by the translator:
+`parts` = EXPRESSION_PARTS; `extra` = the other lists `X.parent.type in <list>` of the condition
+(none in the original source); `dictRule` = the disjunct `X.parent.type == 'dictorsetmaker' and
+X.get_previous_sibling() == '**'` is present; `attrSlot` = for a reference `obj.name` (final
+trailer) the node `X` that is inspected is `obj.name`, not `name`. -/
+structure ParenRule where
+  parts : List String
+  extra : List String
+  dictRule : Bool
+  attrSlot : Bool
+deriving Repr
+
+/-- the condition in `inline` (X = `tree_name`, or `replaced` in the fixed source):
+`rhs.type == 'testlist_star_expr' or X.parent.type in EXPRESSION_PARTS
+ [or X.parent.type in <extra>] [or X.parent.type == 'dictorsetmaker' and X.get_previous_sibling() == '**']
+ or X.parent.type == 'trailer' and X.parent.get_next_sibling() is not None` -/
+def jediParens (R : ParenRule) (rhsType parentType : String) (trailerNext dstar : Bool) : Bool :=
+  rhsType == "testlist_star_expr" || R.parts.contains parentType || R.extra.contains parentType ||
+    (R.dictRule && parentType == "dictorsetmaker" && dstar) ||
     (parentType == "trailer" && trailerNext)
 
 /-- the specification: the inlined text must be parenthesised iff it binds weaker than the slot
@@ -127,8 +143,8 @@ def needsParens (c : Ctx) (r : Rhs) : Bool := decide (r.level < c.req)
 def allPairs : List (Ctx × Rhs) := allCtx.flatMap fun c => allRhs.map fun r => (c, r)
 
 /-- rows where the rule of `inline` is wrong: parentheses needed, none added -/
-def unsoundPairs (parts : List String) : List (Ctx × Rhs) :=
-  allPairs.filter fun p => needsParens p.1 p.2 && !jediParens parts p.2.type p.1.parent p.1.trailerNext
+def unsoundPairs (R : ParenRule) : List (Ctx × Rhs) :=
+  allPairs.filter fun p => needsParens p.1 p.2 && !jediParens R p.2.type p.1.parent p.1.trailerNext p.1.dstar
 
 /-! ## 2. inline -/
 
@@ -145,6 +161,13 @@ structure NameInfo where
   dotTrailer : Bool
   firstPfx : Str
   before : List Nat
+  /-- the previous sibling of the name is `**` -/
+  prevDstar : Bool := false
+  /-- for `obj.name`: type of the parent of the whole `obj.name`, whether that parent (a trailer) has
+  a next sibling, whether `**` precedes `obj.name` -/
+  slotParentType : String := ""
+  slotParentNext : Bool := false
+  slotPrevDstar : Bool := false
 
 /-- what `inline` looks at for the defining statement -/
 structure DefInfo where
@@ -185,8 +208,15 @@ def refusals : List String := [
   "Cannot inline a statement that is defined by an annotation",
   "Cannot inline a statement with \"%s\""]
 
-def oneRef (parts : List String) (d : DefInfo) (m : Map) (n : NameInfo) : Map :=
-  let s := if jediParens parts d.rhsType n.parentType n.parentNext
+/-- does the reference get parentheses?  `replaced` = the name, or (fixed source only) the whole
+`obj.name` when the name is the final `.name` trailer -/
+def refParens (R : ParenRule) (d : DefInfo) (n : NameInfo) : Bool :=
+  if R.attrSlot && n.dotTrailer && !n.parentNext then
+    jediParens R d.rhsType n.slotParentType n.slotParentNext n.slotPrevDstar
+  else jediParens R d.rhsType n.parentType n.parentNext n.prevDstar
+
+def oneRef (R : ParenRule) (d : DefInfo) (m : Map) (n : NameInfo) : Map :=
+  let s := if refParens R d n
     then ['('] ++ d.rhsCode ++ [')'] else d.rhsCode
   if n.dotTrailer then
     mset (n.before.foldl (fun m i => mset m i []) m) n.parentId (n.firstPfx ++ s)
@@ -220,20 +250,20 @@ def stmtCheck (d : DefInfo) : Option String :=
   else none
 
 /-- the map `inline` builds once nothing is refused -/
-def inlineMap (parts : List String) (names : List NameInfo) (d : DefInfo) : Map :=
-  let m := mset ((names.filter (fun n => !n.isDef)).foldl (oneRef parts d) []) d.stmtId
+def inlineMap (R : ParenRule) (names : List NameInfo) (d : DefInfo) : Map :=
+  let m := mset ((names.filter (fun n => !n.isDef)).foldl (oneRef R d) []) d.stmtId
     (removeIndentOfPrefix d.stmtPfx)
   if blankSpTab d.nextPfx && (d.nextType == "newline" || d.nextValue == [';'])
   then mset m d.nextId [] else m
 
 /-- `inline(inference_state, names)`; `d` describes the statement of the (single) definition.
 `Except.error` = `RefactoringError(message)`. -/
-def inline (parts : List String) (names : List NameInfo) (d : DefInfo) : Except String Map :=
+def inline (R : ParenRule) (names : List NameInfo) (d : DefInfo) : Except String Map :=
   match namesCheck names with
   | some e => .error e
   | none => match stmtCheck d with
     | some e => .error e
-    | none => .ok (inlineMap parts names d)
+    | none => .ok (inlineMap R names d)
 
 /-- every node id `inline` may put into the map -/
 def allowedKeys (names : List NameInfo) (d : DefInfo) : List Nat :=
